@@ -128,6 +128,11 @@ def classify_k4(mode, ref, got):
             if obs is not None and obs in cands and (exp is None or exp in cands):
                 if (exp is None and cands[obs]) or (exp is not None and cands[obs] != cands[exp]):
                     k4 = True
+                # both captured: the merged layer is built by dict.update in an order that lets the copy of an
+                # ENCLOSING loop overwrite a same-named binding made between the tag and the fill, and in isolated
+                # mode it is inserted below the layers of the loops it copies
+                elif exp is not None and cands[obs] and cands[exp] and obs[0] == "for" and obs != exp:
+                    k4 = True
         # --- K1 (token level, for transitive forwarding the exact model does not reproduce): a loop variable of a
         #     loop that dynamically encloses the read shows up although it is not visible by the statement's rule
         k1 = False
